@@ -19,11 +19,14 @@
   collection keeps the states related after ρ is cut down to the reachable slots (`collect_rel`, from `mark_exact` +
   the sweep specification).  Collections happen only between top-level statements, where no temporaries are alive —
   which is exactly the modelled behaviour of `Interpreter::run` and what the seeded change C07/C19b violates.
+  `collect_total`: under the run-time invariant a collection always completes (no panic; the marker's fuel bound
+  `markFuel` is proved sufficient for every heap, `Lemmas/MarkFuel.lean`).
 -/
 import Pakhi.Lemmas.Collect
 import Pakhi.Lemmas.EvalInv
 import Pakhi.Lemmas.GcInvisible
 import Pakhi.Lemmas.Mono
+import Pakhi.Lemmas.MarkFuel
 
 namespace Pakhi
 namespace C07
@@ -155,6 +158,15 @@ theorem native_gc_is_invisible (prog : List Stmt) (hp : progWF prog = true) (F :
   | err e => rw [hr0] at o; simp [ObsRel] at o
   | panic p => rw [hr0] at o; simp [ObsRel] at o
   | fuel => rw [hr0] at o; simp [ObsRel] at o
+
+/-- **a collection always completes** in a state satisfying the run-time invariant: it neither panics nor runs out of the
+    marker's fuel, whatever the heap shape (cycles, sharing, any size) -/
+theorem collect_total (h : Heap) (scs : List Scope) (hh : HeapOK (fun _ _ => True) h) (hs : ScopesOK (fun _ _ => True) h scs) :
+    ∃ h', collect scs h = .ok h' := by
+  cases hc : collect scs h with
+  | ok h' => exact ⟨h', rfl⟩
+  | panic p => exact ((collect_ok (fun _ _ => True) hh hs).1 p hc).elim
+  | fuel => exact (collect_never_out_of_fuel scs h hc).elim
 
 end C07
 end Pakhi
